@@ -153,7 +153,12 @@ pub fn run(args: &[&str]) -> String {
       let sigs: Vec<serde_json::Value> = (0..n).map(|i| serde_json::Value::Object(sig_json(&hs[2 * i], &hs[2 * i + 1]))).collect();
       // a payload that is valid both as base64url text and as raw text
       let tok = serde_json::json!({"payload": b64url(b"payload"), "signatures": sigs}).to_string();
-      let agree = (0..n).all(|i| eff_b64(&hs[2 * i]) == eff_b64(&hs[0]));
+      // a protected header naming an algorithm the library does not know does not deserialise: that signature is an error of
+      // its own and takes no part in the comparison of the others
+      const KNOWN: [&str; 15] = ["HS256", "HS384", "HS512", "RS256", "RS384", "RS512", "PS256", "PS384", "PS512", "ES256", "ES384", "ES512", "ES256K", "none", "EdDSA"];
+      let decodable = |h: &Option<HSpec>| h.as_ref().and_then(|h| h.alg.as_ref()).map(|a| KNOWN.contains(&a.as_str())).unwrap_or(true);
+      let dec: Vec<usize> = (0..n).filter(|i| decodable(&hs[2 * i])).collect();
+      let agree = dec.iter().all(|i| eff_b64(&hs[2 * i]) == eff_b64(&hs[2 * dec[0]]));
       match Decoder::new().decode_general_serialization(tok.as_bytes(), None) {
         Ok(iter) => {
           let mut out = vec![];
@@ -163,11 +168,17 @@ pub fn run(args: &[&str]) -> String {
             match r {
               Ok(item) => {
                 accepted += 1;
-                f = f.or(judge(true, &hs[2 * i], &hs[2 * i + 1], "decode_general_serialization"));
+                if decodable(&hs[2 * i]) {
+                  f = f.or(judge(true, &hs[2 * i], &hs[2 * i + 1], "decode_general_serialization"));
+                } else {
+                  f = f.or(Some("policy-accepts-forbidden:decode_general_serialization accepted a signature whose protected header names an unknown algorithm".into()));
+                }
                 out.push(verify_all(item).to_string());
               }
               Err(_) => {
-                f = f.or(judge(false, &hs[2 * i], &hs[2 * i + 1], "decode_general_serialization"));
+                if decodable(&hs[2 * i]) {
+                  f = f.or(judge(false, &hs[2 * i], &hs[2 * i + 1], "decode_general_serialization"));
+                }
                 out.push("err".to_string());
               }
             }
@@ -255,6 +266,26 @@ pub fn gen(thorough: bool, seed: u64, out: &mut impl Write) {
         }
       }
     }
+  }
+  // three and four signatures with one whose protected header does not deserialise (an algorithm of another signer) before,
+  // between and after signatures that agree / disagree on b64
+  {
+    let und = ("H:XYZ:-:-:-:-", "_");
+    let pool = [("H:EdDSA:-:-:-:-", "_"), ("H:EdDSA:t:b64:-:-", "_"), ("H:EdDSA:f:b64:-:-", "_"), ("H:ES256:f:b64:kid:-", "_"), ("_", "H:EdDSA:-:-:-:-")];
+    for a in pool {
+      for b in pool {
+        for pos in 0..3 {
+          let mut v = vec![a, b];
+          v.insert(pos, und);
+          let t: Vec<String> = v.iter().map(|x| format!("{} {}", x.0, x.1)).collect();
+          writeln!(out, "C11 dgeneral {}", t.join(" ")).unwrap();
+        }
+        let t: Vec<String> = [und, a, und, b].iter().map(|x| format!("{} {}", x.0, x.1)).collect();
+        writeln!(out, "C11 dgeneral {}", t.join(" ")).unwrap();
+      }
+    }
+    writeln!(out, "C11 dgeneral {} {} {} {}", und.0, und.1, und.0, und.1).unwrap();
+    writeln!(out, "C11 dgeneral {} {}", und.0, und.1).unwrap();
   }
   // random header pairs over all fields
   let mut r = Rng::new(seed ^ 0xC11);
